@@ -91,11 +91,11 @@ def gen_stock_ops(rng, n):
         elif r < 0.84:
             ops.append("option %s %d" % (rng.choice(["ascii_mode", "full_shape", "ascii_punct", "zh_simp"]), rng.randrange(2)))
         elif r < 0.86:
-            # key_binder hotkeys Control+Shift+2..5 = option toggles.  NOT Control+Shift+1 (`select: .next`): it applies the
-            # second entry of the schema-switcher menu, whose order is the persisted recency list that every session's
-            # schema change updates — the property excludes the switcher menu (on the unchanged tree two sessions pressing
-            # it alternately already see each other's choices)
-            ops.append("key %d 5" % ord(rng.choice("2345")))
+            # key_binder hotkeys: Control+Shift+2..5 = option toggles, Control+Shift+1 = `select: .next`.  The latter applies
+            # the second entry of the switcher's schema list; the workspace sets switcher/fix_schema_list_order so that this
+            # entry is a function of the session's own schema (in the default recency order two sessions pressing it
+            # alternately see each other's choices on the unchanged tree: shared by design, the switcher is outside the property)
+            ops.append("key %d 5" % ord(rng.choice("112345")))
         elif r < 0.93:
             ops.append("read_commit")
         else:
@@ -255,16 +255,34 @@ def run(c):
         shutil.copytree(tpl, d)
         return d
     st["stock_groups"] = 0
-    for g in range(max(2, groups // 3)):
+    # directed: session 0 changes an option the switcher saves (through the API or the key binder's toggle) and changes schema
+    # through the hotkey; session 1, created before, then changes schema through the hotkey too and is probed with
+    # punctuation and a word — what 0 saved must not show up in 1
+    probe = ["key 44 0", "read_commit", "key 46 0", "read_commit", "key 110 0", "key 105 0", "key 32 0", "read_commit",
+             "key 34 0", "read_commit", "key 47 0", "key 32 0", "read_commit"]
+    directed = []
+    for setter in (["option ascii_punct 1"], ["option full_shape 1"], ["key 51 5"], ["option ascii_punct 1", "option full_shape 1"],
+                   ["option zh_simp 1", "key 52 5"]):
+        for hops, switch in ((1, "key 49 5"), (2, "key 49 5"), (1, "schema vs_full2"), (2, "schema vs_script")):
+            ev = [("new", 0, "vs_full"), ("new", 1, "vs_full"), ("new", 2, "vs_full2")]
+            ev += [("op", 0, x) for x in setter] + [("op", 0, switch)]
+            ev += [("op", 1, "key 49 5")] * hops + [("op", 1, x) for x in probe]
+            ev += [("op", 2, "key 49 5")] + [("op", 2, x) for x in probe] + [("op", 0, x) for x in probe]
+            directed.append(ev)
+    n_groups = max(2, groups // 3)
+    for g in range(len(directed) + n_groups):
         n_s = 3
-        scripts = [gen_stock_ops(c.rng, n_ops) for _ in range(n_s)]
-        # all sessions exist before the first call (what is persisted at creation is the template's for each of them)
-        events = [("new", k, c.rng.choice(["vs_full", "vs_full", "vs_full2"])) for k in range(n_s)]
-        pos = [0] * n_s
-        while any(pos[k] < len(scripts[k]) for k in range(n_s)):
-            k = c.rng.choice([k for k in range(n_s) if pos[k] < len(scripts[k])])
-            events.append(("op", k, scripts[k][pos[k]]))
-            pos[k] += 1
+        if g < len(directed):
+            events = directed[g]
+        else:
+            scripts = [gen_stock_ops(c.rng, n_ops) for _ in range(n_s)]
+            # all sessions exist before the first call (what is persisted at creation is the template's for each of them)
+            events = [("new", k, c.rng.choice(["vs_full", "vs_full", "vs_full2"])) for k in range(n_s)]
+            pos = [0] * n_s
+            while any(pos[k] < len(scripts[k]) for k in range(n_s)):
+                k = c.rng.choice([k for k in range(n_s) if pos[k] < len(scripts[k])])
+                events.append(("op", k, scripts[k][pos[k]]))
+                pos[k] += 1
         script, index = to_script([], events)
         d1, d2 = fresh(), fresh()
         rc, out = sc.run_impl(exe, d1, _write(c, "fs%d" % g, script))
